@@ -217,6 +217,12 @@ def handle (toks : List String) : String :=
           let (na, r) ← takeVec r
           let (xa, _) ← takeVec r
           pure (showRats (matToList (findTransform m n na xa)))
+      -- Miller line and plane normal of a cell: `miller vects(9) uvw(3) hkl(3)` -> `u a + v b + w c`, `h b×c + k c×a + l a×b`
+      | "miller" => done do
+          let (V, r) ← takeMat xs
+          let (u, r) ← takeVec r
+          let (h, _) ← takeVec r
+          pure (showRats (vecToList (millerLine V u) ++ vecToList (millerNormal V h)))
       -- rotate C and the Burgers vector: `orient tolC tol T(9) vects(9) Cij(36) b(3)` (`tolC`: the default `tol` of
       -- `ElasticConstants.transform`, which `VolterraDislocation.solve` calls without passing its own `tol`)
       | "orient" => done do
